@@ -176,7 +176,7 @@ theorem hoki_aset_G' {impls : List (Nat × Impl)} {G : List (Nat × Handle)} {g 
     (hh : ImplLive impls hd.impl) (h : HOKI impls G) :
     HOKI impls (aset G g hd) := h.aset_G g hd hh
 
-set_option maxHeartbeats 1000000 in
+set_option maxHeartbeats 400000 in
 theorem HOK_simple (s : St) (op : Op) (s' : St) (r : String) (hI : HOK s)
     (h : stepSimple s op = some (s', r)) : HOK s' := by
   cases op <;> simp only [stepSimple] at h
